@@ -17,12 +17,23 @@ pub fn run(_params: &[i64], ops: &Rows, mon: &mut Mon) -> Rows {
         let input: Vec<u8> = op[1..].iter().map(|b| *b as u8).collect();
         let expect: Vec<u8> = input.iter().copied().take_while(|b| *b != 0).collect();
         let row = match kind {
-            0 | 1 => {
+            0 | 1 | 3 => {
                 let c = if kind == 0 {
                     ReprCString::from(std::str::from_utf8(&input).expect("generator emits valid utf-8 for kind 0"))
+                } else if kind == 3 {
+                    ReprCString::from(String::from_utf8(input.clone()).expect("generator emits valid utf-8 for kind 3"))
                 } else {
                     ReprCString::from(&input[..])
                 };
+                {
+                    // the other read paths: Deref, Borrow<ReprCStr>, Display, Debug
+                    use std::borrow::Borrow;
+                    let d: &str = &c;
+                    let b: &ReprCStr = c.borrow();
+                    if d.as_bytes() != &expect[..] || b.as_ref().as_bytes() != &expect[..] { mon.fail(format!("case{} Deref/Borrow read back differs", k)); }
+                    if format!("{}", c).as_bytes() != &expect[..] || format!("{}", b).as_bytes() != &expect[..] { mon.fail(format!("case{} Display differs", k)); }
+                    let _ = format!("{:?} {:?}", c, b);
+                }
                 let s: Vec<u8> = c.as_ref().as_bytes().to_vec();
                 let c2 = c.clone();
                 let s2: Vec<u8> = c2.as_ref().as_bytes().to_vec();
